@@ -83,6 +83,10 @@ impl TypeSpec {
     }
 }
 
+/// `CompKind::ErrHandler { err: FALLBACK_ERR, .. }`: the user's fallback error handler, `fn(&pavex::Error) -> Response`
+/// (invoked when no handler is registered for the error type).
+pub const FALLBACK_ERR: usize = 9999;
+
 #[derive(Clone, Debug, PartialEq, Serialize, Deserialize)]
 pub enum CompKind {
     Pre,
